@@ -197,6 +197,11 @@ namespace bloch::runtime {
         BLOCH_VERIF_SIM_OP("cx", control, target, 0.0);
         ensureQubitActive(control);
         ensureQubitActive(target);
+        if (control == target) {
+            throw BlochError(ErrorCategory::Runtime, 0, 0,
+                             "cx requires two distinct qubits, got q[" + std::to_string(control) +
+                                 "] twice");
+        }
         // Swap amplitudes where control is 1 and target is 0 to flip target,
         // iterating only the affected subspace to avoid per-index branching.
         int low = std::min(control, target);
